@@ -160,12 +160,17 @@ Fixpoint fl_loop (v : view) (c : byte) (k : nat) : R N :=
   end.
 Definition find_last (v : view) (c : byte) : R N := fl_loop v c (N.to_nat (vlen v)).
 
-(* sub_string(from, size): FRG_ASSERT(from <= _length && size <= _length - from)   (D32 repaired) *)
+(* sub_string(from, size): FRG_ASSERT(from <= _length && size <= _length - from)   (D32 repaired).
+   The bound check is a parameter only so that the check of the code BEFORE the repair, which wrapped mod 2^64,
+   can be named in the D32 refutation (CmdlineProofs.parse_wrapping_check_refuted); the model is [sub_string]. *)
 Definition padd (p : ptr) (d : N) : ptr := match p with PNull => PNull | P b o => P b (o + d) end.
-Definition sub_string (v : view) (from size : N) : R view :=
-  if (from <=? vlen v) && (size <=? vlen v - from)
+Definition chk_safe (from size len : N) : bool := (from <=? len) && (size <=? len - from).
+Definition chk_wrapping (from size len : N) : bool := (from + size) mod W64 <=? len.
+Definition sub_string_with (chk : N -> N -> N -> bool) (v : view) (from size : N) : R view :=
+  if chk from size (vlen v)
   then retR (mkview (padd (vptr v) from) size)
   else (AssertStop a_sub_string, []).
+Definition sub_string := sub_string_with chk_safe.
 
 Definition starts_with (v o : view) : R bool :=
   if vlen v <? vlen o then retR false else s <- sub_string v 0 (vlen o) ;; view_eq s o.
